@@ -23,18 +23,25 @@ fn fn_of_site(site: &str) -> String {
     let (file, line) = site.split_once(':').unwrap_or((site, "0"));
     let line: usize = line.parse().unwrap_or(0);
     let mut name = format!("{file}:?");
+    let is_lock_call = |l: &str| [".read()", ".write()", "try_read_for(", "try_write_for(", "try_write()"].iter().any(|p| l.contains(p));
     for dir in ["/repo/autosar-data/src", "/repo/autosar-data-specification/src"] {
         if let Ok(text) = std::fs::read_to_string(format!("{dir}/{file}")) {
             let lines: Vec<&str> = text.lines().collect();
             let mut i = line.min(lines.len());
+            // ordinal of this lock call among the lock calls of the enclosing function (robust against edits elsewhere,
+            // and it tells a timed try-lock that was turned into a blocking lock from the blocking locks next to it)
+            let mut ordinal = 0;
             while i > 0 {
                 i -= 1;
                 let l = lines[i].trim_start();
+                if is_lock_call(l) && !l.starts_with("//") {
+                    ordinal += 1;
+                }
                 if let Some(p) = l.find("fn ") {
                     if l.starts_with("pub") || l.starts_with("fn ") {
                         let rest = &l[p + 3..];
                         let n: String = rest.chars().take_while(|c| c.is_alphanumeric() || *c == '_').collect();
-                        name = format!("{}:{}", file, n);
+                        name = format!("{}:{}#{}", file, n, ordinal);
                         break;
                     }
                 }
@@ -374,7 +381,29 @@ pub fn run(ctx: &Ctx, which: Which) {
     par_items(ctx, &specials, |t, st| {
         explore(ctx, which, t, bound, max_runs * 2, st);
     });
-    // (b) random operations and schedules
+    // (b) random schedules
+    if which == Which::C16 {
+        // C16: the operation pairs are the curated ones (the recorded finding is keyed by the pair of operation names,
+        // so the explored pairs form a fixed finite set); the schedules are random and deeper than in (a)
+        let cases = ctx.tier.pick(4_000u64, 150_000u64);
+        let npairs = pairs.len();
+        let strat = (0..npairs.max(1), proptest::collection::vec(prop_oneof![6 => Just(0u8), 2 => 1u8..3, 1 => any::<u8>()], 0..160));
+        run_prop(ctx, "random-schedules", cases, strat, |(pi, schedule), st| {
+            let (x, y) = pairs[*pi % npairs.max(1)];
+            let c = ConcCase { threads: vec![vec![x], vec![y]], schedule: schedule.clone() };
+            match judge(which, &c, st) {
+                Ok(()) => Outcome::Pass,
+                Err(f) => {
+                    if !stable(which, &c, &f.signature) {
+                        st.class("unstable(not reported)");
+                        return Outcome::Pass;
+                    }
+                    Outcome::Fail(f)
+                }
+            }
+        });
+        return;
+    }
     let cases = ctx.tier.pick(3_000u64, 120_000u64);
     let strat = (
         proptest::collection::vec(proptest::collection::vec(cop_strategy(), 1..3), 2..4),
